@@ -34,7 +34,16 @@ META = {
                   "reference normal is not in the plane of the two vectors (C12_signed_angle_guard_is_needed shows the guard is "
                   "necessary). The model is tied to the running code by kernel-evaluated correspondence batches on call sequences "
                   "(exact through Q, binary64 with tolerance for sqrt).",
-    "level_note": "PROVED: the theorems of Props.v about the regenerated definitions and the regenerated event table. TESTED only: that "
+    "level_note": "DELIBERATELY LEFT FREE by the oracle (the property text does not fix them): the exception class and message of a "
+                  "refused call, and whether a malformed / degenerate input (corners or operands of different sizes, wrong-size point or "
+                  "padding, unknown `which`, empty point set, zero vector to normalise, coincident or collinear points for cotan / "
+                  "circumcenter / face_basis, parallel lines) is refused at all - only the no-side-effect clauses are judged there; which "
+                  "faces of the boundary contains_point counts in; is_empty on zero-extent boxes; +pi versus -pi for a half-turn in "
+                  "principal_angle / angle_diff (closed interval); the order in which roots() lists the n roots; every numeric answer "
+                  "is compared as a quantity, |x - e| <= 1e-9 (1 + |e|), not as an expression. Still violations: an exception on an "
+                  "input that must be answered, a wrong answer, any side effect. (The kernel-checked correspondence stays exact for "
+                  "sqrt-free quantities and order-sensitive for roots: a rewrite that changes those is reported as unproved, not as a "
+                  "violation.) PROVED: the theorems of Props.v about the regenerated definitions and the regenerated event table. TESTED only: that "
                   "those definitions compute what the running code computes (correspondence batches) and the functions listed in the "
                   "evidence notes as correspondence/oracle-only. The side-effect event table is produced by a FAIL-CLOSED analysis: every "
                   "call must be a function of the five files, an np.seterr* call, a recognised in-place method (rooted at its receiver / "
@@ -425,7 +434,8 @@ def gen_vec_prog(rng):
             fn("sign0", [], None, [rng.choice([-2, -0.5, 0, 0.25, 3])])
             fn("sign", [], None, [rng.choice([-2, -0.5, 0, 0.25, 3])])
         elif r < 0.98:
-            a = rng.choice([k / 8.0 for k in range(-200, 201)] + [1000.5, -512.25, 0.0])
+            a = rng.choice([k / 8.0 for k in range(-200, 201)] + [1000.5, -512.25, 0.0]
+                           + [PI, -PI, 3 * PI, -3 * PI, 2 * PI, PI / 2, 5 * PI] * 6)      # half-turns: +pi and -pi are both admissible
             fn("principal", [], None, [a])
             fn("angle_diff", [], None, [a, rng.choice(ANGLES)])
         else:
@@ -629,8 +639,7 @@ def robs_term(op, ob, skip=False):
             return "(RVF %s)" % fvec(ob["r"][1])
         return "RSkip"
     if ob["exc"] is not None:
-        e = EXN.get(ob["exc"])
-        return "(RExc %s)" % e if e else "ROther"
+        return "RRaised" if ob["exc"] == "raised" else "ROther"
     r = ob["r"]
     exact = op_is_exact(op)
     t = r[0]
@@ -767,17 +776,24 @@ def oracle_prog(prog, obs):
         for c in ob["boxchg"]:
             if c[0] not in allowed:
                 bad(i, "effects/other-box/" + name, "box %d changed by a call that is not documented to modify it" % c[0])
-        if exc is not None and exc.startswith("other"):
-            bad(i, "raise/unexpected/%s/%s" % (name, exc.split(":")[1].strip()), "unexpected exception %s" % exc)
-            continue
-        if r[0] == "other":
-            bad(i, "result/shape/" + name, "%s returned %s" % (name, r[1]))
-            continue
-        # ---------------- algebra
+        # ---------------- algebra.  A call whose INPUT is malformed / degenerate may be refused: any exception class and
+        # message is accepted there and no answer is judged (the property only asks that nothing else changes, checked
+        # above).  On every other input an exception is a violation, and so is a wrong answer.
         try:
-            oracle_op(i, op, ob, A, B, ops, obs, bad)
+            refusable = refusable_input(op, A, B)
         except KeyError:
-            pass
+            refusable = True
+        if not refusable:
+            if exc is not None:
+                bad(i, "raise/valid-input/" + name, "%s raised (%s) on an input that must be answered: %s"
+                    % (name, ob.get("exc_class"), json.dumps(opcore(op))[:160]))
+            elif r[0] == "other":
+                bad(i, "result/shape/" + name, "%s returned %s" % (name, r[1]))
+            else:
+                try:
+                    oracle_op(i, op, ob, A, B, ops, obs, bad)
+                except KeyError:
+                    pass
         # shadow update
         if exc is None and k in ("span", "center") and "store" in optd(op) and r[0] == "v" and finite(r[1]):
             A[optd(op)["store"]] = frs(r[1])
@@ -801,6 +817,58 @@ def norm_exact(v, which):
     return None
 
 
+def refusable_input(op, A, B):
+    """decided from the INPUT alone (never from what the implementation does): may this call be refused?"""
+    o = opcore(op)
+    k = o[0]
+    if k == "box":
+        return len(A[o[2]]) != len(A[o[3]])
+    if k == "ofpts":
+        pts = [A[s] for s in o[2]]
+        return not pts or len({len(p_) for p_ in pts}) != 1
+    if k == "pad_v":
+        return len(A[o[2]]) != len(B[o[1]][0])
+    if k in ("contains", "project", "distance"):
+        if len(A[o[2]]) != len(B[o[1]][0]):
+            return True
+        return k == "distance" and o[3] not in KINDS
+    if k in ("union", "inter", "do_intersect"):
+        return len(B[o[-2]][0]) != len(B[o[-1]][0])
+    if k == "normalize":
+        return all(x == 0 for x in A[o[1]]) or o[2] not in KINDS
+    if k == "fn":
+        name, args, which = o[1], o[2], o[3]
+        a = [A[s] for s in args]
+        if name in ("norm", "vnorm", "distance", "normalized") and which is not None and which not in KINDS:
+            return True
+        if name == "normalized":
+            return bool(a[0]) and all(x == 0 for x in a[0])
+        if name == "cotan":
+            return all(x == 0 for x in fsub(a[0], a[1])) or all(x == 0 for x in fsub(a[2], a[1]))
+        if name in ("circum", "face_basis"):
+            n_ = fcross(fsub(a[1], a[0]), fsub(a[2], a[0]))
+            return fdot(n_, n_) == 0                       # coincident / collinear points: no circumcentre, no basis
+        if name == "line2":
+            d1, d2 = a[1], a[3]
+            det = d1[0] * d2[1] - d1[1] * d2[0]
+            return det * det <= Fr(1, 10 ** 20) * fdot(d1, d1) * fdot(d2, d2)   # (nearly) parallel lines
+        if name == "aspect_ratio":
+            n_ = fcross(fsub(a[1], a[0]), fsub(a[2], a[0]))
+            return fdot(n_, n_) == 0
+    return False
+
+
+def feq(x, e, tol=1e-9):
+    """house rule: a quantity, not an expression, is fixed: |x - e| <= 1e-9 (1 + |e|)"""
+    if isinstance(x, str):
+        return False
+    return abs(float(x) - float(e)) <= tol * (1 + abs(float(e)))
+
+
+def veq(v, e):
+    return len(v) == len(e) and all(feq(x, y) for x, y in zip(v, e))
+
+
 def oracle_op(i, op, ob, A, B, ops, obs, bad):
     k = op[0]
     exc = ob["exc"]
@@ -810,7 +878,7 @@ def oracle_op(i, op, ob, A, B, ops, obs, bad):
         if len(a) != len(b):
             if exc != "exc":
                 bad(i, "box/init/dim", "AABB of arrays of sizes %d and %d answered %s" % (len(a), len(b), exc or r))
-        elif exc or frs(r[1]) != a or frs(r[2]) != b:
+        elif not veq(r[1], a) or not veq(r[2], b):
             bad(i, "box/init/value", "AABB(%s, %s) is %s" % (a, b, exc or r))
         return
     if k == "ofpts":
@@ -828,7 +896,8 @@ def oracle_op(i, op, ob, A, B, ops, obs, bad):
         for j in range(d):
             col = [p[j] for p in pts]
             # tight: every point inside, each bound attained (shifted by the padding)
-            if not all(lo[j] + pad <= x <= hi[j] - pad for x in col) or (lo[j] + pad) not in col or (hi[j] - pad) not in col:
+            if not all(feq(max(lo[j] + pad, x), x) and feq(min(hi[j] - pad, x), x) for x in col) \
+                    or not any(feq(lo[j] + pad, x) for x in col) or not any(feq(hi[j] - pad, x) for x in col):
                 bad(i, "box/of_points/tight", "box of %s (padding %s) is [%s, %s] in coordinate %d" % (col, pad, lo[j], hi[j], j))
                 return
         return
@@ -839,7 +908,7 @@ def oracle_op(i, op, ob, A, B, ops, obs, bad):
         v1, v2 = r[1]
         n = int(op[2])
         want = {"zeros": [0] * n, "X": [1, 0, 0], "Y": [0, 1, 0], "Z": [0, 0, 1]}.get(op[1])
-        if want is not None and (frs(v1) != frs(want) or frs(v2) != frs(want)):
+        if want is not None and (not veq(v1, want) or not veq(v2, want)):
             bad(i, "fn/vec_ctor/value", "Vec.%s(%s) returned %s and %s" % (op[1], n, v1, v2))
         elif want is None and (len(v1) != n or len(v2) != n or any(not (0 <= x < 1) for x in v1 + v2)):
             bad(i, "fn/vec_ctor/random", "Vec.random(%d) returned %s and %s" % (n, v1, v2))
@@ -848,7 +917,7 @@ def oracle_op(i, op, ob, A, B, ops, obs, bad):
     if k == "unit_cube":
         n, c = int(op[2]), bool(op[3])
         want = ([Fr(-1, 2)] * n, [Fr(1, 2)] * n) if c else ([Fr(0)] * n, [Fr(1)] * n)
-        if exc or (frs(r[1]), frs(r[2])) != want:
+        if not veq(r[1], want[0]) or not veq(r[2], want[1]):
             bad(i, "box/unit_cube", "unit_cube(%d, centered=%s) is %s" % (n, c, exc or r))
         return
     if k == "infinite":
@@ -899,7 +968,7 @@ def oracle_op(i, op, ob, A, B, ops, obs, bad):
         want = ([a - max(x, 0) for a, x in zip(lo, p)], [a + max(x, 0) for a, x in zip(hi, p)])
         got = [c for c in ob["boxchg"] if c[0] == op[1]]
         now = (frs(got[0][1]), frs(got[0][2])) if got else (lo, hi)
-        if now != want:
+        if not veq(now[0], want[0]) or not veq(now[1], want[1]):
             bad(i, "box/pad/value", "pad(%s) of [%s, %s] gives %s" % (p, lo, hi, now))
         return
     if k in ("contains", "project", "distance"):
@@ -919,17 +988,20 @@ def oracle_op(i, op, ob, A, B, ops, obs, bad):
         inside_half_open = all(l <= x < h for l, x, h in zip(lo, p, hi))
         nonempty = all(l <= h for l, h in zip(lo, hi))
         dmin = [max(l - x, x - h, 0) for l, x, h in zip(lo, p, hi)]     # per-coordinate distance to [l, h]
+        inside_open = all(l < x < h for l, x, h in zip(lo, p, hi))
+        inside_closed = all(l <= x <= h for l, x, h in zip(lo, p, hi))
         if k == "contains":
-            if r[1] != inside_half_open:
-                bad(i, "box/contains", "contains_point(%s) in [%s, %s) answered %s" % (p, lo, hi, r[1]))
+            # which faces of the boundary belong to the box is left free by the property
+            if (inside_open and r[1] is not True) or (not inside_closed and r[1] is not False):
+                bad(i, "box/contains", "contains_point(%s) in [%s, %s] answered %s" % (p, lo, hi, r[1]))
             return
         if k == "project":
             qq = frs(r[1])
             if not nonempty:
                 return          # the closed box is empty: nothing to lie in
-            if not all(l <= x <= h for l, x, h in zip(lo, qq, hi)):
+            if not all(feq(max(l, x), x) and feq(min(h, x), x) for l, x, h in zip(lo, qq, hi)):
                 bad(i, "box/project/inside", "projection %s of %s is outside the closed box [%s, %s]" % (qq, p, lo, hi))
-            elif [abs(x - y) for x, y in zip(p, qq)] != dmin:
+            elif not veq([abs(x - y) for x, y in zip(p, qq)], dmin):
                 bad(i, "box/project/closest", "projection %s of %s onto [%s, %s] is not the closest point" % (qq, p, lo, hi))
             return
         # distance
@@ -941,9 +1013,9 @@ def oracle_op(i, op, ob, A, B, ops, obs, bad):
             if isinstance(val, str) or not close(float(val) ** 2, float(sum(x * x for x in dmin))):
                 bad(i, "box/distance/l2", "l2 distance of %s to [%s, %s] answered %s" % (p, lo, hi, val))
         else:
-            if isinstance(val, str) or Fr(val) != norm_exact(dmin, which):
+            if not feq(val, norm_exact(dmin, which)):
                 bad(i, "box/distance/" + which, "%s distance of %s to [%s, %s] answered %s" % (which, p, lo, hi, val))
-        if inside_half_open and val != 0:
+        if inside_closed and not feq(val, 0):
             bad(i, "box/distance/contained", "contained point %s at distance %s" % (p, val))
         return
     if k in ("union", "inter", "do_intersect"):
@@ -959,11 +1031,11 @@ def oracle_op(i, op, ob, A, B, ops, obs, bad):
         ov_hi = [min(a, b) for a, b in zip(h1, h2)]
         if k == "union":
             lo, hi = frs(r[1]), frs(r[2])
-            if lo != [min(a, b) for a, b in zip(l1, l2)] or hi != [max(a, b) for a, b in zip(h1, h2)]:
+            if not veq(lo, [min(a, b) for a, b in zip(l1, l2)]) or not veq(hi, [max(a, b) for a, b in zip(h1, h2)]):
                 bad(i, "box/union", "union of [%s,%s] and [%s,%s] is [%s,%s]" % (l1, h1, l2, h2, lo, hi))
         elif k == "inter":
             lo, hi = frs(r[1]), frs(r[2])
-            if lo != ov_lo or hi != ov_hi:
+            if not veq(lo, ov_lo) or not veq(hi, ov_hi):
                 bad(i, "box/intersection", "intersection of [%s,%s] and [%s,%s] is [%s,%s]" % (l1, h1, l2, h2, lo, hi))
         else:
             want = all(h - l >= 0 for l, h in zip(ov_lo, ov_hi))
@@ -978,11 +1050,12 @@ def oracle_op(i, op, ob, A, B, ops, obs, bad):
         lo, hi = B[op[1]]
         if exc:
             bad(i, "box/%s/raise" % k, "%s raised %s" % (k, exc))
-        elif k == "is_empty" and r[1] != any(l >= h for l, h in zip(lo, hi)):
+        elif k == "is_empty" and ((any(l > h for l, h in zip(lo, hi)) and r[1] is not True)
+                                  or (all(l < h for l, h in zip(lo, hi)) and r[1] is not False)):      # zero-extent boxes: free
             bad(i, "box/is_empty", "is_empty([%s,%s]) answered %s" % (lo, hi, r[1]))
-        elif k == "span" and frs(r[1]) != [h - l for l, h in zip(lo, hi)]:
+        elif k == "span" and not veq(r[1], [h - l for l, h in zip(lo, hi)]):
             bad(i, "box/span", "span([%s,%s]) = %s" % (lo, hi, r[1]))
-        elif k == "center" and frs(r[1]) != [(h + l) / 2 for l, h in zip(lo, hi)]:
+        elif k == "center" and not veq(r[1], [(h + l) / 2 for l, h in zip(lo, hi)]):
             bad(i, "box/center", "center([%s,%s]) = %s" % (lo, hi, r[1]))
         return
     if k == "fn":
@@ -1021,17 +1094,17 @@ def oracle_fn(i, op, ob, A, ops, obs, bad):
             return
         if name == "cross":
             c = frs(r[1])
-            if c != fcross(a[0], a[1]):
+            if not veq(c, fcross(a[0], a[1])):
                 bad(i, "fn/cross", "cross(%s, %s) = %s" % (a[0], a[1], c))
             # Lagrange: |a x b|^2 = |a|^2 |b|^2 - (a.b)^2
-            elif fdot(c, c) != fdot(a[0], a[0]) * fdot(a[1], a[1]) - fdot(a[0], a[1]) ** 2:
+            elif not feq(fdot(c, c), fdot(a[0], a[0]) * fdot(a[1], a[1]) - fdot(a[0], a[1]) ** 2):
                 bad(i, "fn/cross/lagrange", "Lagrange identity fails for %s, %s" % (a[0], a[1]))
-        elif name in ("dot", "vdot") and Fr(r[1]) != fdot(a[0], a[1]):
+        elif name in ("dot", "vdot") and not feq(r[1], fdot(a[0], a[1])):
             bad(i, "fn/dot", "dot(%s, %s) = %s" % (a[0], a[1], r[1]))
-        elif name == "det2" and Fr(r[1]) != a[0][0] * a[1][1] - a[0][1] * a[1][0]:
+        elif name == "det2" and not feq(r[1], a[0][0] * a[1][1] - a[0][1] * a[1][0]):
             reps = op[5] if len(op) > 5 else "?"
             bad(i, "fn/det2", "det_2x2(%s, %s) passed as %s = %s, x1*y2 - y1*x2 = %s" % (a[0], a[1], reps, r[1], a[0][0] * a[1][1] - a[0][1] * a[1][0]))
-        elif name == "det3" and Fr(r[1]) != fdot(a[0], fcross(a[1], a[2])):
+        elif name == "det3" and not feq(r[1], fdot(a[0], fcross(a[1], a[2]))):
             bad(i, "fn/det3", "det_3x3(%s, %s, %s) = %s" % (a[0], a[1], a[2], r[1]))
         return
     if name in ("norm", "vnorm", "distance"):
@@ -1045,7 +1118,7 @@ def oracle_fn(i, op, ob, A, ops, obs, bad):
         if which == "l2":
             if not close(float(r[1]) ** 2, float(fdot(v, v))):
                 bad(i, "fn/norm/l2", "l2 norm of %s = %s" % (v, r[1]))
-        elif Fr(r[1]) != norm_exact(v, which):
+        elif not feq(r[1], norm_exact(v, which)):
             bad(i, "fn/norm/" + which, "%s norm of %s = %s" % (which, v, r[1]))
         return
     if name == "normalized":
@@ -1157,10 +1230,6 @@ def oracle_fn(i, op, ob, A, ops, obs, bad):
     if name == "line2":
         p1, d1, p2, d2 = a
         det = d1[0] * d2[1] - d1[1] * d2[0]
-        if abs(det) < Fr(1, 10 ** 12):
-            if exc or r[0] != "none":
-                bad(i, "fn/line2/parallel", "intersection of parallel lines answered %s" % (exc or r))
-            return
         if exc or r[0] != "v":
             return bad(i, "fn/line2/raise", "intersect_2lines2D answered %s" % (exc or r))
         X = [float(x) for x in r[1]]
@@ -1173,7 +1242,7 @@ def oracle_fn(i, op, ob, A, ops, obs, bad):
         if exc:
             return unexpected()
         u, v = fsub(a[1], a[0]), fsub(a[2], a[0])
-        if Fr(r[1]) != abs(u[0] * v[1] - u[1] * v[0]) / 2:
+        if not feq(r[1], abs(u[0] * v[1] - u[1] * v[0]) / 2):
             bad(i, "fn/tri_area2d", "triangle_area_2D(%s) = %s" % (a, r[1]))
         return
     if name == "plane":
@@ -1263,7 +1332,7 @@ def oracle_fn(i, op, ob, A, ops, obs, bad):
         if exc:
             return unexpected()
         want = [[x * y for y in a[1]] for x in a[0]]
-        if [frs(row) for row in r[1]] != want:
+        if len(r[1]) != len(want) or any(not veq(row, w_) for row, w_ in zip(r[1], want)):
             bad(i, "fn/outer", "outer(%s, %s) = %s" % (a[0], a[1], r[1]))
         return
     if name == "axis_rot_from_z":
@@ -1282,8 +1351,8 @@ def oracle_fn(i, op, ob, A, ops, obs, bad):
     if name in ("sign0", "sign"):
         v = Fr(sc[0])
         want = (1 if v >= 0 else -1) if name == "sign0" else (1 if v > 0 else (-1 if v < 0 else 0))
-        if exc or Fr(r[1]) != want:
-            bad(i, "fn/" + name, "%s(%s) = %s" % (name, v, exc or r[1]))
+        if not feq(r[1], want):
+            bad(i, "fn/" + name, "%s(%s) = %s" % (name, v, r[1]))
         return
     if name in ("principal", "angle_diff"):
         if exc:
@@ -1322,10 +1391,11 @@ def oracle_fn(i, op, ob, A, ops, obs, bad):
             if any(z != 0 for z in rs):
                 bad(i, "fn/roots/zero", "roots(0, %d, normalize=False) = %s" % (n, rs[:3]))
             return
-        # pairwise distinct and equally spaced: consecutive quotients are exp(2 i pi / n)
-        w = cmath.exp(2j * PI / n)
-        if any(abs(rs[(k2 + 1) % n] / rs[k2] - w) > 1e-8 for k2 in range(n)):
-            bad(i, "fn/roots/spacing", "roots(%s, %d, %s) are not the n equally spaced roots" % (c, n, how))
+        # the n roots are pairwise distinct (n distinct n-th roots of one number are the equally spaced ones); the ORDER in
+        # which they are listed is left free
+        sz = max(abs(z) for z in rs)
+        if any(abs(rs[x] - rs[y]) <= 1e-6 * sz for x in range(n) for y in range(x + 1, n)):
+            bad(i, "fn/roots/distinct", "roots(%s, %d, %s) are not n distinct roots: %s" % (c, n, how, rs[:4]))
         return
 
 
@@ -1599,7 +1669,7 @@ def run(ctx):
             nm = op[1] if op[0] == "fn" else op[0]
             ctx.count("call " + nm)
             if ob["exc"]:
-                ctx.count("raised " + ob["exc"].split(":")[0])
+                ctx.count("raised " + str(ob.get("exc_class") or ob["exc"]).split(":")[0])
         ctx.case_seen(p["ops"], nontrivial=nontrivial(p, o),
                       sample={"program": p["ops"][:8], "observed": [w["r"] for w in o[:8]]})
     ctx.extra["calls"] = ncalls
